@@ -16,8 +16,13 @@ theorem get_only_get : ∀ a ∈ oasMethods, routerFn a = "get".toList → a = "
 theorem status_of_exact : ∀ t ∈ Oas3.Gen.Status.tokens, ∀ c, code (.named t) = some c → httpStatus (.named t) = c := by
   decide +kernel
 
-/-- known defect, reproduced by the model: a `3XX` variant is answered with 500. -/
-theorem cex_redirection_500 : httpStatus (.named "Redirection3XX".toList) = 500 := by decide +kernel
+/-- a `3XX` variant is answered with a status of ITS range (300), like the other range tokens (was 500: F05-3, fixed) -/
+theorem redirection_in_range : httpStatus (.named "Redirection3XX".toList) = 300 := by decide +kernel
+
+/-- the status sent for a variant declared under ANY named token is acceptable for the key that token is written
+as in the spec (`as_str`: exact code, `nXX` range or `default`): with the `3XX` arm in place there is no exception -/
+theorem status_ok_every_token : ∀ p ∈ Oas3.Gen.Status.asStrTbl, statusOkFor p.2 (httpStatus (.named p.1)) = true := by
+  decide +kernel
 
 /-! ## status of the `IntoResponse` arms, routing -/
 open Oas3.Resp Oas3.Path
